@@ -177,8 +177,9 @@ def _cmp_inf(op, a, b):
     raise AssertionError
 
 
-def scalar_binop(op, a, b):
-    """Binary op on python / z3 scalars with python+torch-like promotion."""
+def scalar_binop(op, a, b, wf=True):
+    """Binary op on python / z3 scalars with python+torch-like promotion.
+    wf=False: the caller (a tensor op) has already emitted the well-formedness obligation eagerly."""
     if isinstance(a, Inf) or isinstance(b, Inf):
         if op in ("lt", "le", "gt", "ge", "eq", "ne"):
             return _cmp_inf(op, a, b)
@@ -209,18 +210,19 @@ def scalar_binop(op, a, b):
     if op == "mul":
         return x * y
     if op == "truediv":
-        cur().wf("div-nonzero", y != 0)
+        if wf:
+            cur().wf("div-nonzero", y != 0)
         return x / y
     if op == "floordiv":
         if d == "f":
             return z3.ToReal(z3.ToInt(x / y))
-        if not (isinstance(b, int) and b > 0):
+        if wf and not (isinstance(b, int) and b > 0):
             cur().wf("floordiv-positive-divisor", y > 0)
         return x / y
     if op == "mod":
         if d == "f":
             raise Unsupported("real mod")
-        if not (isinstance(b, int) and b > 0):
+        if wf and not (isinstance(b, int) and b > 0):
             cur().wf("mod-positive-divisor", y > 0)
         return x % y
     if op == "pow":
@@ -262,8 +264,20 @@ def binop(op, a, b):
         return ew(lambda x, y: _int_bit(op, x, y), [a, b], out_dtype=promote(da, db), compute="i")
     if op in ("lt", "le", "gt", "ge", "eq", "ne"):
         return ew(lambda x, y: B_(scalar_binop(op, x, y)), [a, b], out_dtype="b", compute=_cmp_dt(da, db))
+    if op in ("truediv", "floordiv", "mod"):
+        # divisor obligation emitted eagerly (elem closures are evaluated lazily)
+        if T(b):
+            bs = b.snap()
+            if op == "truediv":
+                wf_forall(b.shape, lambda I: zreal(bs(I)) != 0 if b.dtype == "f" else zint(bs(I)) != 0, "div-nonzero")
+            elif b.dtype != "f":
+                wf_forall(b.shape, lambda I: zint(bs(I)) > 0, op + "-positive-divisor")
+        elif is_z3(b):
+            cur().wf("div-nonzero" if op == "truediv" else op + "-positive-divisor", (b != 0) if op == "truediv" else (b > 0))
+        elif b == 0:
+            cur().wf("div-nonzero", False)
     if op == "truediv":
-        return ew(lambda x, y: scalar_binop(op, x, y), [a, b], out_dtype="f", compute="f")
+        return ew(lambda x, y: scalar_binop(op, x, y, wf=False), [a, b], out_dtype="f", compute="f")
     d = promote(da, db)
     if d == "b":
         if op in ("add",):
@@ -271,7 +285,7 @@ def binop(op, a, b):
         if op in ("mul",):
             return ew(lambda x, y: B_(AND(x, y)), [a, b], out_dtype="b", compute="b")
         d = "i"
-    return ew(lambda x, y: scalar_binop(op, x, y), [a, b], out_dtype=d, compute=d)
+    return ew(lambda x, y: scalar_binop(op, x, y, wf=False), [a, b], out_dtype=d, compute=d)
 
 
 def _cmp_dt(da, db):
@@ -499,7 +513,7 @@ def simp_add(a, b):
         return b
     if isinstance(b, int) and b == 0:
         return a
-    return zint(a) + zint(b)
+    return simp_int(zint(a) + zint(b))
 
 
 def simp_sub(a, b):
@@ -507,7 +521,7 @@ def simp_sub(a, b):
         return a - b
     if isinstance(b, int) and b == 0:
         return a
-    return zint(a) - zint(b)
+    return simp_int(zint(a) - zint(b))
 
 
 def eqv(a, b):
